@@ -23,13 +23,13 @@ use std::panic::AssertUnwindSafe;
 use std::pin::Pin;
 use std::sync::atomic::{AtomicBool, AtomicUsize, Ordering};
 use std::sync::{Arc, Mutex};
-use std::task::{Context, Poll};
+use std::task::{Context, Poll, Waker};
 use std::time::Duration;
 
 use futures_util::{FutureExt, Stream, StreamExt};
-use hickory_net::client::ClientHandle;
-use hickory_net::runtime::{Time, TokioRuntimeProvider};
-use hickory_net::xfer::Protocol;
+use hickory_net::client::{Client, ClientHandle};
+use hickory_net::runtime::{Time, TokioRuntimeProvider, TokioTime};
+use hickory_net::xfer::{DnsClientStream, Protocol};
 use hickory_net::{BufDnsStreamHandle, DnsHandle, NetError};
 use hickory_proto::dnssec::crypto::Ed25519SigningKey;
 use hickory_proto::dnssec::rdata::{DNSSECRData, DNSKEY, DS};
@@ -80,13 +80,18 @@ fn big_txt(id: u64) -> TXT {
 
 /// one abstract record description -> concrete records (a `bulk` description expands to many)
 fn records_of(d: &Value, apex: &Name) -> Vec<Record> {
-    if let Some(kind) = d.get("bulk").and_then(Value::as_str) {
-        let n = d["n"].as_u64().expect("bulk n");
-        let p = d.get("p").and_then(Value::as_str).unwrap_or("h");
+    // {"bulk": kind, "n": count, "p": prefix} or, as Gen_Xfer writes it, {"t": "BULK-<kind>", "d": count, "o": prefix}
+    let bulk = match d.get("bulk").and_then(Value::as_str) {
+        Some(kind) => Some((kind.to_string(), d["n"].as_u64().expect("bulk n"), d.get("p").and_then(Value::as_str).unwrap_or("h").to_string())),
+        None => d.get("t").and_then(Value::as_str).and_then(|t| t.strip_prefix("BULK-")).map(|kind| {
+            (kind.to_string(), d["d"].as_u64().expect("bulk count"), d["o"].as_str().expect("bulk prefix").to_string())
+        }),
+    };
+    if let Some((kind, n, p)) = bulk {
         return (0..n)
             .map(|i| {
                 let owner = rel(&format!("{p}{i}"), apex);
-                let data = match kind {
+                let data = match kind.as_str() {
                     "A" => RData::A(A::new(10, (i >> 16) as u8, (i >> 8) as u8, i as u8)),
                     "TXT" => RData::TXT(TXT::new(vec![format!("bulk-{i}")])),
                     "BIGTXT" => RData::TXT(big_txt(1000 + i)),
@@ -98,7 +103,7 @@ fn records_of(d: &Value, apex: &Name) -> Vec<Record> {
     }
     let owner = rel(d["o"].as_str().expect("owner"), apex);
     let k = d.get("d").and_then(Value::as_u64).unwrap_or(0);
-    let x = d.get("x").and_then(Value::as_str).map(|s| rel(s, apex));
+    let x = d.get("x").and_then(Value::as_str).filter(|s| !s.is_empty()).map(|s| rel(s, apex));
     let ttl = d.get("ttl").and_then(Value::as_u64).unwrap_or(3600) as u32;
     let data = match d["t"].as_str().expect("type") {
         "SOA" => RData::SOA(SOA::new(rel("ns", apex), rel("admin", apex), k as u32, 3600, 600, 86400, 300)),
@@ -129,7 +134,11 @@ fn fnv(b: &[u8]) -> u64 {
 fn rr_str(r: &Record) -> String {
     let rd = format!("{}", r.data);
     let rd = if rd.len() > 90 { format!("#{}:{:016x}", rd.len(), fnv(rd.as_bytes())) } else { rd };
-    format!("{} {} {} {} {}", r.name.to_lowercase(), r.ttl, r.dns_class, r.record_type(), rd)
+    let ty = match &r.data {
+        RData::DNSSEC(DNSSECRData::RRSIG(sig)) => format!("RRSIG({})", sig.input().type_covered),
+        _ => r.record_type().to_string(),
+    };
+    format!("{} {} {} {} {}", r.name.to_lowercase(), r.ttl, r.dns_class, ty, rd)
 }
 
 // ---------------------------------------------------------------------------------------
@@ -426,14 +435,18 @@ async fn run_server_case(c: &Value, id: &str) -> Result<Value, String> {
         Ok(ms) => ("ok", ms.iter().map(|b| project_msg(b, &request)).collect::<Vec<_>>()),
         Err(_) => ("PANIC", Vec::new()),
     };
-    Ok(json!({
+    let mut ev = json!({
         "ev": "server", "case": id, "store": c["store"].as_str().unwrap_or("memory"), "policy": c["policy"].as_str().unwrap_or("all"),
         "sign": c["sign"].as_str().unwrap_or("none"),
         "req": {"proto": req["proto"].as_str().unwrap_or("tcp"), "qtype": req["qtype"].as_str().unwrap_or("AXFR"), "qname": qk,
                 "edns": req["edns"].as_u64().unwrap_or(0), "do": req["do"].as_bool().unwrap_or(false),
                 "have": req["have"].as_str().unwrap_or("none"), "id": request.metadata.id},
         "target": target, "zones": zones, "msgs": msgs, "obs": obs,
-    }))
+    });
+    if let Some(d) = c["exp"]["duty"].as_str() {
+        ev["expDuty"] = json!(d);
+    }
+    Ok(ev)
 }
 
 // ---------------------------------------------------------------------------------------
@@ -571,9 +584,132 @@ fn run_client_case(c: &Value, id: &str) -> Value {
     }
     let items: Vec<&str> = out.iter().map(|i| i["r"].as_str().unwrap()).collect();
     json!({
-        "ev": "client", "case": id, "mode": mode, "have": have, "script": c["script"], "term": term,
+        "ev": "client", "case": id, "via": "direct", "mode": mode, "have": have, "script": c["script"], "term": term,
         "items": items, "taken": h.msgs_taken.load(Ordering::SeqCst), "polls": h.polls.load(Ordering::SeqCst),
         "ended": ended, "inOrder": in_order, "obs": obs,
+    })
+}
+
+// ---------------------------------------------------------------------------------------
+// client side, whole stack: the real `Client` (DnsExchange + DnsMultiplexer, 5 s request time-out)
+// over a scripted connection, on tokio's paused clock
+
+#[derive(Default)]
+struct Inbound {
+    q: VecDeque<Vec<u8>>,
+    closed: bool,
+    waker: Option<Waker>,
+}
+
+struct Peer {
+    inb: Arc<Mutex<Inbound>>,
+    addr: SocketAddr,
+}
+
+impl Stream for Peer {
+    type Item = Result<SerialMessage, NetError>;
+    fn poll_next(self: Pin<&mut Self>, cx: &mut Context<'_>) -> Poll<Option<Self::Item>> {
+        let mut inb = self.inb.lock().unwrap();
+        match inb.q.pop_front() {
+            Some(b) => Poll::Ready(Some(Ok(SerialMessage::new(b, self.addr)))),
+            None if inb.closed => Poll::Ready(None),
+            None => {
+                inb.waker = Some(cx.waker().clone());
+                Poll::Pending
+            }
+        }
+    }
+}
+
+impl DnsClientStream for Peer {
+    type Time = TokioTime;
+    fn name_server_addr(&self) -> SocketAddr {
+        self.addr
+    }
+}
+
+/// term "timeout": the peer goes silent, the multiplexer's request time-out fires;
+/// term "close": the peer closes the connection
+async fn run_client_stack_case(c: &Value, id: &str) -> Value {
+    let origin = Name::from_ascii(APEX).unwrap();
+    let mode = c["mode"].as_str().unwrap_or("axfr");
+    let have = c["have"].as_u64().unwrap_or(0) as u32;
+    let term = c["term"].as_str().unwrap_or("timeout");
+    let addr: SocketAddr = "192.0.2.53:53".parse().unwrap();
+    let inb = Arc::new(Mutex::new(Inbound::default()));
+    let (handle, mut outbound) = BufDnsStreamHandle::new(addr);
+    let (mut client, bg) = Client::<TokioRuntimeProvider>::new(Peer { inb: inb.clone(), addr }, handle);
+    let bg_task = tokio::spawn(bg);
+    let last = if mode == "ixfr" { Some(client_soa(&origin, have, true)) } else { None };
+    let nscript = c["script"].as_array().expect("script").len();
+    QUIET.store(true, Ordering::Relaxed);
+    let mut stream = client.zone_transfer(origin.clone(), last);
+    let collector = tokio::spawn(async move {
+        let mut out: Vec<Value> = Vec::new();
+        let mut ended = false;
+        while out.len() < nscript + 4 {
+            match stream.next().await {
+                Some(Ok(r)) => out.push(json!({"r": "ok", "n": r.answers.len()})),
+                Some(Err(_)) => out.push(json!({"r": "err"})),
+                None => {
+                    ended = true;
+                    break;
+                }
+            }
+        }
+        (out, ended)
+    });
+    // the request as it leaves the multiplexer carries the ID the replies must have
+    let request_id = match tokio::time::timeout(Duration::from_secs(1), outbound.next()).await {
+        Ok(Some(sm)) => Message::from_vec(&sm.into_parts().0).map(|m| m.metadata.id).ok(),
+        _ => None,
+    };
+    let Some(request_id) = request_id else {
+        bg_task.abort();
+        collector.abort();
+        QUIET.store(false, Ordering::Relaxed);
+        return json!({"ev": "harness-error", "case": id, "error": "no request left the multiplexer"});
+    };
+    let wake = |inb: &Arc<Mutex<Inbound>>| {
+        if let Some(w) = inb.lock().unwrap().waker.take() {
+            w.wake();
+        }
+    };
+    for (i, m) in c["script"].as_array().unwrap().iter().enumerate() {
+        let mut msg = Message::new(request_id, MessageType::Response, OpCode::Query);
+        msg.metadata.response_code = ResponseCode::from(0, m["rc"].as_u64().unwrap_or(0) as u8);
+        msg.metadata.authoritative = true;
+        if i == 0 {
+            let mut q = Query::new(origin.clone(), if mode == "ixfr" { RecordType::IXFR } else { RecordType::AXFR });
+            q.set_query_class(DNSClass::IN);
+            msg.add_query(q);
+        }
+        msg.insert_answers(m["an"].as_array().expect("an").iter().map(|r| script_record(r, &origin)).collect());
+        inb.lock().unwrap().q.push_back(msg.to_vec().expect("encode"));
+        wake(&inb);
+        // one message at a time, everybody runs in between (a burst of more than nine messages of one
+        // request inside one poll of the multiplexer loses messages: finding of C16, not judged here)
+        for _ in 0..6 {
+            tokio::task::yield_now().await;
+        }
+    }
+    if term == "close" {
+        inb.lock().unwrap().closed = true;
+        wake(&inb);
+    }
+    // paused clock: when every task is idle, time jumps to the next timer (the request time-out)
+    let res = tokio::time::timeout(Duration::from_secs(600), collector).await;
+    QUIET.store(false, Ordering::Relaxed);
+    bg_task.abort();
+    let (obs, out, ended) = match res {
+        Ok(Ok((o, e))) => ("ok", o, e),
+        Ok(Err(_)) => ("PANIC", Vec::new(), false),
+        Err(_) => ("HANG", Vec::new(), false),
+    };
+    let items: Vec<&str> = out.iter().map(|i| i["r"].as_str().unwrap()).collect();
+    json!({
+        "ev": "client", "case": id, "via": "stack", "mode": mode, "have": have, "script": c["script"], "term": term,
+        "items": items, "taken": 0, "polls": 0, "ended": ended, "inOrder": true, "obs": obs,
     })
 }
 
@@ -799,6 +935,7 @@ fn main() {
         }
     }));
     let rt = tokio::runtime::Builder::new_current_thread().enable_all().build().unwrap();
+    let rt_paused = tokio::runtime::Builder::new_current_thread().enable_all().start_paused(true).build().unwrap();
 
     let run = |c: &Value, id: &str| -> Value {
         match c["kind"].as_str().unwrap_or("") {
@@ -806,6 +943,7 @@ fn main() {
                 Ok(ev) => ev,
                 Err(e) => json!({"ev": "harness-error", "case": id, "error": e}),
             },
+            "client" if c["via"] == "stack" => rt_paused.block_on(run_client_stack_case(c, id)),
             "client" => run_client_case(c, id),
             "request" => run_request_case(c, id),
             k => json!({"ev": "harness-error", "case": id, "error": format!("kind {k}")}),
@@ -837,10 +975,13 @@ fn main() {
                         } else {
                             "pending"
                         };
-                        let k = ev["taken"].as_u64().unwrap_or(0);
+                        // over the whole stack what the stream takes from the layer below is not visible
+                        let stack = ev["via"] == "stack";
+                        let k = if stack { items.iter().filter(|x| **x == "ok").count() as u64 } else { ev["taken"].as_u64().unwrap_or(0) };
                         let exp = &c["exp"];
                         let ok = exp["verdict"] == verdict
-                            && (verdict != "complete" || (exp["k"].as_u64() == Some(k) && items.len() as u64 == k && ev["polls"].as_u64() == Some(k)));
+                            && (verdict != "complete"
+                                || (exp["k"].as_u64() == Some(k) && items.len() as u64 == k && (stack || ev["polls"].as_u64() == Some(k))));
                         (json!(ok), json!({"verdict": verdict, "k": k, "items": items, "polls": ev["polls"]}))
                     }
                     // server / request cases: the verdict is the trace specification's
